@@ -5,6 +5,8 @@ import importlib.util, json, os, glob, sys
 HERE = os.path.dirname(os.path.dirname(os.path.abspath(__file__)))
 sys.path.insert(0, os.path.join(HERE, "lib"))
 checks = []
+_nt = os.path.join(HERE, "tools", "no_thorough.json")
+no_thorough = json.load(open(_nt)) if os.path.exists(_nt) else {}
 for path in sorted(glob.glob(os.path.join(HERE, "checks", "C*.py"))):
     pid = os.path.basename(path)[:-3]
     spec = importlib.util.spec_from_file_location("m_" + pid, path)
@@ -24,6 +26,9 @@ for path in sorted(glob.glob(os.path.join(HERE, "checks", "C*.py"))):
         "level_note": m["note"],
         "technique": m["technique"],
     })
+    if pid in no_thorough:
+        del checks[-1]["thorough_cmd"]
+        checks[-1]["level_note"] += " [thorough tier not registered: " + no_thorough[pid] + "]"
 na = json.load(open(os.path.join(HERE, "tools", "not_applicable.json")))
 claimed = {c["property_id"] for c in checks}
 allp = [json.loads(l)["id"] for l in open(os.path.join(HERE, "properties.jsonl"))]
